@@ -9,6 +9,44 @@ fn main() {
         eprintln!("usage: vcheck <Cxx> --tier quick|thorough [--replay FILE] [--profile NAME] [--merge-from FILE] [--evidence-out FILE]");
         std::process::exit(2);
     }
+    if args[1] == "fuzz-seeds" {
+        // vcheck fuzz-seeds <target> <dir>: write the seed corpus for a fuzz target
+        let target = &args[2];
+        let dir = PathBuf::from(&args[3]);
+        std::fs::create_dir_all(&dir).unwrap();
+        for (i, s) in vcommon::fuzzglue::seed_inputs(target).iter().enumerate() {
+            std::fs::write(dir.join(format!("seed-{:04}", i)), s).unwrap();
+        }
+        return;
+    }
+    if args[1] == "fuzz-replay" {
+        // vcheck fuzz-replay <target> <artifact> [<property>]: judge a libFuzzer input with the same oracles, no libFuzzer
+        let target = &args[2];
+        let data = std::fs::read(&args[3]).unwrap_or_else(|e| {
+            eprintln!("cannot read {}: {}", args[3], e);
+            std::process::exit(2)
+        });
+        let want = args.get(4).cloned();
+        let verif_dir = PathBuf::from(std::env::var("VERIF_DIR").unwrap_or_else(|_| "/verif".to_string()));
+        let known = load_known(&verif_dir);
+        install_panic_hook();
+        let findings = vcommon::fuzzglue::run_target(target, &data);
+        let mut rc = 0;
+        for (i, (prop, sig, msg, case)) in findings.iter().enumerate() {
+            let prop = if prop.is_empty() { want.clone().unwrap_or_else(|| "C02".into()) } else { prop.clone() };
+            if known.iter().any(|k| k.property == prop && k.signature == *sig) {
+                println!("KNOWN-FINDING: property={} [signature={}]", prop, sig);
+                continue;
+            }
+            let ctx = Ctx { prop: prop.clone(), tier: Tier::Thorough, seed: 0, profile: "fuzz".into(), verif_dir: verif_dir.clone(), scale: 1.0, known: vec![] };
+            let v = Violation { property: prop.clone(), signature: sig.clone(), message: msg.clone(), case: case.clone() };
+            let path = write_replay(&ctx, &v, 900 + i);
+            eprintln!("violation [{}] {}", sig, msg);
+            println!("VIOLATION property={} replay={}", prop, path.display());
+            rc = 1;
+        }
+        std::process::exit(rc);
+    }
     let prop = args[1].clone();
     let mut tier = match std::env::var("VERIF_TIER").ok().as_deref() {
         Some("thorough") => Tier::Thorough,
